@@ -287,7 +287,7 @@ def check_repetition(ctx, db):
                 ctx.violation('R-TABLE', inst, top.loc(), 'type code %d is written but not decoded' % code)
                 continue
             rf_ = rarms[code]
-            msg = compare_rep(wf, rf_, kind[0], code)
+            msg = compare_rep(wf, rf_, kind[0], code, w)
             ctx.check(msg is None, 'R-TABLE', inst, top.loc(), 'type %d: %s  <->  reader: %s' % (code, show_rep(wf), show_rep(rf_)), msg)
             # reader result kind must enumerate the same offsets: type family table
             want_kind = {1: 'Rectangular', 2: 'Rectangular', 3: 'Rectangular', 4: 'ExplicitX', 6: 'ExplicitY', 8: 'Regular', 9: 'Regular', 10: 'Explicit'}.get(code)
@@ -423,7 +423,21 @@ def show_rep(x):
     return ' '.join('%s%s%s%s' % ('{' if f['loop'] else '', f['codec'], ('%+d' % (f['bias'] if isinstance(x, dict) else -f['bias'])) if f['bias'] else '', '}*' if f['loop'] else '') for f in fl)
 
 
-def compare_rep(wf, rarm, kind, code):
+def axes_of(text, fn, depth=2):
+    """lattice axes a writer argument depends on: 1 = columns / v1 / spacing.x, 2 = rows / v2 / spacing.y (locals resolved through their initialisers)"""
+    out = set()
+    if re.search(r'\bcolumns\b|\bv1\b|spacing\.x', text):
+        out.add(1)
+    if re.search(r'\brows\b|\bv2\b|spacing\.y', text):
+        out.add(2)
+    if depth:
+        for v in fn.walk():
+            if v.k == 'VarDecl' and v.child('init') is not None and re.search(r'(?<![\w.>])%s\b' % re.escape(v.n), text):
+                out |= axes_of(norm(v.child('init').text()), fn, depth - 1)
+    return out
+
+
+def compare_rep(wf, rarm, kind, code, fn=None):
     rf_ = [f for f in rarm['fields']]
     # explicit lists: writer `X {X}*` (first element + differences) <-> reader `{X}*` with count = 1 + d
     w = list(wf)
@@ -451,6 +465,22 @@ def compare_rep(wf, rarm, kind, code):
         return None
     if [f['codec'] for f in w] != [f['codec'] for f in r]:
         return 'field codecs differ: written %s, read %s' % (show_rep(w), show_rep(rarm))
+    if fn is not None:
+        counts = [f for f in w if f['codec'] == 'uint' and not f['scaled']]
+        vectors = [f for f in w if f['scaled']]
+        if len(counts) == len(vectors):
+            for c_, v_ in zip(counts, vectors):
+                ac, av = axes_of(c_['arg'], fn), axes_of(v_['arg'], fn)
+                if ac != av or not ac:
+                    return 'the count `%s` runs along lattice axis %s but is paired with the step `%s` of axis %s' % (c_['arg'], sorted(ac), v_['arg'][:60], sorted(av))
+    rdest = [(f['dest'] or '') for f in r if f['codec'] == 'uint' and not f['scaled']]
+    rvec = [(f['dest'] or '') for f in r if f['codec'] == 'uint' and f['scaled']]
+    for c_, v_ in zip(rdest, rvec):
+        ac = {1} if 'columns' in c_ else ({2} if 'rows' in c_ else set())
+        av = {1} if c_ and v_.endswith('.x') else ({2} if v_.endswith('.y') else set())
+        av = {1} if v_.endswith('.x') else ({2} if v_.endswith('.y') else set())
+        if ac != av:
+            return 'reader stores the count in `%s` but the step in `%s`' % (c_, v_)
     for a, b in zip(w, r):
         if a['loop'] != b['loop']:
             return 'loop structure differs'
